@@ -54,8 +54,21 @@ func rlimitFor(effortMs int) int64 {
 var rlimitRe = regexp.MustCompile(`:rlimit-count\s+(\d+)`)
 
 func (vc *VC) queryText(o *Obligation, withModel bool) string {
+	return vc.queryTextOpt(o, withModel, false)
+}
+
+// queryTextOpt builds the SMT query of an obligation. The lean variant leaves
+// out the heuristic instances of the quantified assumptions (the assumptions
+// themselves are all there): on large contexts the instances can cost more
+// than they help, so the portfolio also runs the query without them.
+func (vc *VC) queryTextOpt(o *Obligation, withModel, lean bool) string {
 	var b strings.Builder
 	b.WriteString(prelude)
+	extra := append([]string{}, o.Extra...)
+	if !lean {
+		extra = append(extra, o.Inst...)
+	}
+	o = &Obligation{Name: o.Name, Guard: o.Guard, Goal: o.Goal, Extra: extra, PrefixLen: o.PrefixLen, IsCover: o.IsCover}
 	frameInst := vc.frameInstances(o.Guard.S+" "+o.Goal.S+" "+strings.Join(o.Extra, " "), o.PrefixLen)
 	if noSlice {
 		for _, d := range vc.decls {
@@ -152,6 +165,15 @@ func (vc *VC) discharge(o *Obligation, dir string, timeoutMs int, idx int) {
 		return
 	}
 	defer os.Remove(file)
+	leanFile := ""
+	if len(o.Inst) > 0 {
+		leanFile = filepath.Join(dir, fmt.Sprintf("q%05d-lean.smt2", idx))
+		if err := os.WriteFile(leanFile, []byte(vc.queryTextOpt(o, true, true)), 0o644); err != nil {
+			leanFile = ""
+		} else {
+			defer os.Remove(leanFile)
+		}
+	}
 	apply := func(r solveResult) bool {
 		switch r.verdict {
 		case "unsat":
@@ -184,7 +206,16 @@ func (vc *VC) discharge(o *Obligation, dir string, timeoutMs int, idx int) {
 	if o.IsCover {
 		stage1 = timeoutMs
 	}
-	r := runSolver(context.Background(), solvers[0], file, stage1)
+	fastFile, fastName := file, ""
+	if leanFile != "" && len(o.Inst) >= 64 {
+		// many heuristic instances: the plain query is usually the quicker one
+		fastFile, fastName = leanFile, "(lean)"
+	}
+	r := runSolver(context.Background(), solvers[0], fastFile, stage1)
+	r.solver += fastName
+	if fastName != "" && r.verdict == "sat" {
+		r.verdict = "unknown"
+	}
 	total := r.ms
 	if apply(r) {
 		return
@@ -199,13 +230,26 @@ func (vc *VC) discharge(o *Obligation, dir string, timeoutMs int, idx int) {
 	// stage 2: all three solvers with the full effort
 	ctx, cancel := context.WithCancel(context.Background())
 	defer cancel()
-	others := solvers
-	ch := make(chan solveResult, len(others))
-	for _, s := range others {
+	ch := make(chan solveResult, len(solvers)+1)
+	for _, s := range solvers {
 		go func(s solverCfg) { ch <- runSolver(ctx, s, file, timeoutMs) }(s)
 	}
+	nrun := len(solvers)
+	if leanFile != "" {
+		// the same query without the heuristic instances
+		nrun++
+		go func() {
+			r := runSolver(ctx, solvers[0], leanFile, timeoutMs)
+			r.solver += "(lean)"
+			if r.verdict == "sat" {
+				// a model of the lean query need not be a model of the full one
+				r.verdict = "unknown"
+			}
+			ch <- r
+		}()
+	}
 	var outputs []string
-	for range others {
+	for i := 0; i < nrun; i++ {
 		rr := <-ch
 		outputs = append(outputs, rr.solver+": "+truncate(strings.TrimSpace(rr.output), 300))
 		if rr.verdict != "unknown" {
